@@ -30,6 +30,13 @@ function gen1(rng, params, mode) {
     const d2 = genDisc(rng, 1, names, { key: d1[2], tags: d1[3].map((m) => m[0]) });
     rts.splice(0, rts.length >= 2 ? 2 : rts.length, d1, d2);
   }
+  // type names are arbitrary identifiers: names of Object.prototype members, names with `$` patterns
+  if (multi && names.length && rng.chance(1, 6)) {
+    const from = rng.pick(names), to = rng.pick(["toString", "constructor", "hasOwnProperty", "valueOf", "Money$$Amount", "A$&B", "Pre$`x", "Post$'x"]);
+    const ren = (x) => { if (!Array.isArray(x)) return; if (head(x) === "ref" && x[1] === from) x[1] = to; x.forEach(ren); };
+    env.forEach((e) => { if (e[0] === from) e[0] = to; ren(e[1]); }); rts.forEach(ren);
+    names[names.indexOf(from)] = to;
+  }
   const nrt2 = rts.length;
   const [tpl, key] = multi ? rng.pick(TEMPLATES) : TEMPLATES[0];
   // an override must be a self-contained schema source: a parser that does not mention any named type
